@@ -27,6 +27,9 @@ os.environ.setdefault("OMP_NUM_THREADS", "1")
 
 
 def _worker_init():
+    import jax
+
+    jax.config.update("jax_enable_x64", True)
     sys.path.insert(0, HERE)
     sys.path.insert(0, os.environ.get("VERIF_REPO", "/repo"))
     from vcgen import prims
